@@ -410,6 +410,15 @@ var c18nums = Register(&Prop[NumPair]{ID: "C18", Name: "numeric-pool-pairs", Che
 func eachNumPair(yield func(*NumPair) bool) {
 	pool := append([]float64(nil), gen.NumPool...)
 	pool = append(pool, math.Inf(1), math.Inf(-1), 1e23, 9.999999999999999e22, 4611686018427387904, 9223372036854774784, 18446744073709551616, -1e19, -1e20, 1e308, 2e308/2)
+	// neighbouring doubles with a fractional part, at magnitudes where one ulp is far above and
+	// far below the comparison tolerance
+	for _, base := range []float64{0.1, 1.5, 1023.3, 8388609.3, 123456789.25, 1700000000.0121, 4503599627370497.5} {
+		x := base
+		for i := 0; i < 3; i++ {
+			pool = append(pool, x, -x)
+			x = math.Nextafter(x, math.Inf(1))
+		}
+	}
 	for _, a := range pool {
 		for _, b := range pool {
 			if !yield(&NumPair{A: m.F64(a), B: m.F64(b)}) {
@@ -420,7 +429,7 @@ func eachNumPair(yield func(*NumPair) bool) {
 }
 
 func TestC18(t *testing.T) {
-	R.Rule = "pairs (v, w) of one type (primitives, nested lists / maps / objects / optionals to depth 4): w is a copy, a field-order and insertion-order permutation, v with one leaf changed to a clearly different value (numbers identical or differing by > 1e-6, across 2^53 and 2^63; strings needing escapes; instants, several zones), unrelated, or two different values whose texts coincide once strings are written without quotes (a string holding the container's separator); built through the value constructors (one case in six with repeated sub-values being one shared value on the v side only) or as Go host data through conv; oracle: agreement of val.Equals, Val.String equality, Val.Key equality, isset([v:1], w), union / intersect / diff cardinalities, == / != and string(v) == string(w) for equal values, labelled by the model's own equality; reflexivity and symmetry; plus all pairs of the boundary numeric pool for distinct renderings and keys; non-trivial = a model-equal pair in another representation, or a pair differing in exactly one leaf"
+	R.Rule = "pairs (v, w) of one type (primitives, nested lists / maps / objects / optionals to depth 4): w is a copy, a field-order and insertion-order permutation, v with one leaf changed to a clearly different value (numbers identical or differing by > 1e-6, across 2^53 and 2^63; strings needing escapes; instants, several zones), unrelated, or two different values whose texts coincide once strings are written without quotes (a string holding the container's separator); built through the value constructors (one case in six with repeated sub-values being one shared value on the v side only) or as Go host data through conv; oracle: agreement of val.Equals, Val.String equality, Val.Key equality, isset([v:1], w), union / intersect / diff cardinalities, == / != and string(v) == string(w) for equal values, labelled by the model's own equality; reflexivity and symmetry; plus all pairs of the boundary numeric pool (incl. neighbouring doubles with a fractional part at seven magnitudes) for distinct renderings and keys; non-trivial = a model-equal pair in another representation, or a pair differing in exactly one leaf"
 	R.Assume = []string{"model.ValEqual (harness) labels pairs; numbers inside a pair are identical or clearly different (the property's own restriction)"}
 	reportKnown(t, "C18")
 	runRegress(t, "C18")
